@@ -44,7 +44,8 @@ def load_known():
 
 def match_known(known, pid, signature):
     for k in known:
-        if k["property"] in (pid, "*") and re.search(k["signature_regex"], signature):
+        props = k["property"] if isinstance(k["property"], list) else [k["property"]]
+        if (pid in props or "*" in props) and re.search(k["signature_regex"], signature):
             return k
     return None
 
